@@ -31,7 +31,8 @@ HASHSEEDS = ["0", "1", "2", "random", "12345", "3", "random", "4294967295"]
 NSHARDS = {"quick": 8, "thorough": 16}
 N_CFG = {"quick": 36, "thorough": 400}
 N_GEN = {"quick": 40, "thorough": 600}
-REQUIRE = {"paired_runs_same_process": 200, "paired_with_failures": 50, "paired_with_suspensions": 5,
+REQUIRE = {"paired_runs_same_process": 200, "paired_with_failures": 50, "paired_with_suspensions": 20,
+           "paired_with_pool_level_ties": 10, "second_run_positioned_at_id_rollover": 15, "paired_with_simultaneous_suspension_ends": 5,
            "cross_process_comparisons": 200, "workload_independence_checked": 200, "seed_pairs_checked": 200}
 
 
@@ -52,6 +53,24 @@ def cfg_list(tier, seed):
             c = {"kind": "sim", "algo": "priority", "workload": {"type": "script", "arrivals": arrivals},
                  "params": {"duration": 120 / tps, "ticks_per_second": tps, "num_pools": 1, "cpus_per_pool": 10,
                             "ram_gb_per_pool": 10, "multi_operator_containers": True}}
+        elif i % 6 == 1:
+            # identical multi-operator pipelines: operator boundaries coincide, several suspensions end in one tick
+            c = _sim.preemption_case(rng, algo="priority", oom=False, identical=True)
+        elif i % 6 == 2:
+            # overbook with exact score ties: identical pipelines start in the same tick on a pool they overflow together
+            tps = rng.choice([2, 5, 10])
+            R = rng.choice([16, 64])
+            n = rng.randint(4, 9)
+            arrivals = {}
+            for b in range(rng.randint(1, 3)):
+                spec = {"prio": "BATCH_PIPELINE", "ops": [{"parents": [], "segs": [
+                    {"cpu": rng.randint(2, 6) / tps, "law": "const", "mem": None, "read": R * rng.choice([0.3, 0.45, 0.7])}]},
+                    {"parents": [0], "segs": [{"cpu": 2 / tps, "law": "const", "mem": R * 0.05, "read": 0.0}]}]}
+                for j in range(n):
+                    arrivals.setdefault(str(b * 7), []).append(dict(spec, pid=f"t{b}_{j}"))
+            c = {"kind": "sim", "algo": "overbook", "workload": {"type": "script", "arrivals": arrivals},
+                 "params": {"duration": 200 / tps, "ticks_per_second": tps, "num_pools": 1, "cpus_per_pool": n + 2,
+                            "ram_gb_per_pool": R, "multi_operator_containers": False, "allow_memory_overcommit": True}}
         else:
             c = _sim.random_sim_case(rng, small=True, mem_levels=[0.05, 0.15, 0.3, 0.6], max_ticks=rng.choice([100, 300, 600]))
         c["_cfg"] = i
@@ -77,12 +96,67 @@ def cases(tier, seed, shard, nshards):
                            "random_seed": rng.randint(0, 10 ** 6)}}
 
 
+_MAX_ID = [0]
+
+
+def _note_ids(h):
+    import re
+    for cid in h.conts:
+        m = re.fullmatch(r"c(\d+)", str(cid))
+        if m:
+            _MAX_ID[0] = max(_MAX_ID[0], int(m.group(1)))
+
+
+def burn_container_ids(n):
+    """Advance the process-wide container numbering by n (a preceding history of simulations:
+    one naive pool running n one-tick pipelines)."""
+    from ..simworld import Harness
+    if n <= 0:
+        return
+    spec = lambda j: {"pid": f"burn{j}", "prio": "BATCH_PIPELINE", "ops": [
+        {"parents": [], "segs": [{"cpu": 0.5, "law": "const", "mem": 0.001, "read": 0.0}]}]}
+    h = Harness({"duration": n + 3, "ticks_per_second": 1, "num_pools": 1, "cpus_per_pool": 1, "ram_gb_per_pool": 1,
+                 "multi_operator_containers": True}, "naive", {"type": "script", "arrivals": {str(j): [spec(j)] for j in range(n)}}, [])
+    h.run()
+    _note_ids(h)
+
+
+def position_for_rollover(h1):
+    """Arrange the numbering so that, in the next run of the same configuration, a group of
+    containers that were born together (and of which some were killed) straddles a power of
+    ten (c99|c100, c999|c1000): identifiers must not influence behaviour."""
+    import re
+    order = sorted(h1.conts.values(), key=lambda c: (c.born, int(re.sub(r"\D", "", str(c.cid)) or 0)))
+    if not order or _MAX_ID[0] == 0:
+        return False
+    idx = {c.cid: i for i, c in enumerate(order)}
+    a = 1
+    for t in sorted({c.ended for c in order if c.status == "failed"}):
+        grp = [c for c in order if c.status == "failed" and c.ended == t]
+        same = [c for c in order if c.born == grp[0].born and c.pool == grp[0].pool]
+        if len(same) > 1:
+            a = idx[same[0].cid] + 1
+            break
+    nxt = _MAX_ID[0] + 1
+    target = 10
+    while target - a < nxt:
+        target *= 10
+        if target > 10 ** 6:
+            return False
+    burn = target - a - nxt
+    if burn > (30000 if h1.algo == "overbook" and h1.n_failed else 9000):
+        return False
+    burn_container_ids(burn)
+    return _MAX_ID[0] + 1 == target - a or burn == 0
+
+
 def run_once(case):
     from ..simworld import Harness
     from ..simmon import EventLogMon
     lg = EventLogMon()
     h = Harness(case["params"], case["algo"], gen.strip(case["workload"]), [lg])
     h.run()
+    _note_ids(h)
     stats = json.dumps(jsonable(h.stats.to_dict()), sort_keys=True) if h.stats is not None else f"raised {type(h.exc).__name__}: {h.exc}"
     return lg, h, stats
 
@@ -135,12 +209,31 @@ def run_case(case, mon):
     rng = rng_for("c07-between", case.get("_cfg"))
     for _ in range(2):
         run_once(_sim.random_sim_case(rng, small=True, max_ticks=80))
+    if position_for_rollover(h1):
+        mon.count("second_run_positioned_at_id_rollover")
     lg2, h2, st2 = run_once(case)
     mon.count("paired_runs_same_process")
     if h1.n_failed:
         mon.count("paired_with_failures")
     if h1.n_suspended:
         mon.count("paired_with_suspensions")
+        ends = {}
+        for ci in h1.conts.values():
+            if ci.status == "suspended":
+                ends[ci.ended] = ends.get(ci.ended, 0) + 1
+        if any(v > 1 for v in ends.values()):
+            mon.count("paired_with_simultaneous_suspension_ends")
+    if case["algo"] == "overbook" and h1.n_failed:
+        fails = {}
+        for ci in h1.conts.values():
+            if ci.status == "failed":
+                fails.setdefault(ci.ended, []).append(ci)
+        # a kill tick in which a container with the same allocation and age survived: a score tie was broken
+        for t, lst in fails.items():
+            if any(o.status != "failed" or o.ended != t for o in h1.conts.values()
+                   if o.born == lst[0].born and o.pool == lst[0].pool and (o.ended is None or o.ended >= t)):
+                mon.count("paired_with_pool_level_ties")
+                break
     if lg1.lines != lg2.lines:
         k = next((i for i, (a, b) in enumerate(zip(lg1.lines, lg2.lines)) if a != b), min(len(lg1.lines), len(lg2.lines)))
         mon.fail("rerun-differs", f"second run in the same process diverges at event {k}: "
